@@ -203,7 +203,7 @@ class _Run:
             rv = lp.remove_alarm(a["handle"])
             self.log.add("api", ["remove_alarm", op["id"], bool(rv), a["state"]])
             if a["state"] == "pending":
-                if not rv and not self.stopping():
+                if not rv and not self.stopping() and not a.get("late"):
                     self.violate("C13.2", "remove-pending-alarm-reported-failure", f"alarm {op['id']}")
                 a["state"] = "removed"
                 if inside and inside[0] == "alarm":
@@ -230,7 +230,7 @@ class _Run:
             rv = lp.remove_watch_file(wt["handle"])
             self.log.add("api", ["remove_watch", op["p"], bool(rv), wt["registered"]])
             if wt["registered"]:
-                if not rv and not self.stopping():
+                if not rv and not self.stopping() and not wt.get("stale"):
                     self.violate("C13.3", "remove-registered-watch-reported-failure", f"watch {op['p']}")
                 wt["registered"] = False
                 if inside == ("watch", op["p"]):
@@ -255,7 +255,9 @@ class _Run:
             rv = lp.remove_enter_idle(it["handle"])
             self.log.add("api", ["remove_idle", op["id"], bool(rv), it["registered"]])
             if it["registered"]:
-                if not rv and not self.stopping():
+                # (a registration made before an earlier run() ended is "stale": trio forgets its idle callbacks when
+                # run() ends, the other loops keep them; what removing one reports is not constrained)
+                if not rv and not self.stopping() and not it.get("stale"):
                     self.violate("C13.4", "remove-registered-idle-reported-failure", f"idle {op['id']}")
                 it["registered"] = False
                 if inside and inside[0] == "idle":
